@@ -127,10 +127,20 @@ func (p *Proxy) SetAttr(name string, value Object) error {
 		}
 
 		if field.CanSet() {
-			if result == nil {
+			rv := reflect.ValueOf(result)
+			switch {
+			case result == nil:
 				field.SetZero()
-			} else {
-				field.Set(reflect.ValueOf(result))
+			case field.Kind() == reflect.Struct && rv.Kind() == reflect.Ptr && rv.Type().Elem() == field.Type():
+				// struct members are exposed as proxies of pointers
+				if rv.IsNil() {
+					return errz.TypeErrorf("type error: cannot set field %s from a nil %s", name, rv.Type())
+				}
+				field.Set(rv.Elem())
+			case rv.Type().AssignableTo(field.Type()):
+				field.Set(rv)
+			default:
+				return errz.TypeErrorf("type error: cannot use %s as %s for field %s", rv.Type(), field.Type(), name)
 			}
 			return nil
 		} else {
